@@ -170,6 +170,11 @@ def run_merge(probes, fill=0):
                     elif fn.endswith('.tsv'):
                         if read_tsv(os.path.join(str(out_dir), fn)) != a:
                             diff.append(fn)
+                    elif fn == 'params.py':
+                        ns2 = {}
+                        exec(open(os.path.join(str(out_dir), fn)).read(), {}, ns2)
+                        if ns2 != a:
+                            diff.append('params.py: %r' % {k: ns2.get(k) for k in ('n_channels_dat', 'sample_rate')})
                 res['second_merge_differs'] = diff
             except Exception as e:
                 res['second_merge_differs'] = ['exception: ' + repr(e)[:200]]
